@@ -77,6 +77,18 @@ func c06CorpusScripts() map[string][]string {
 			"mkcommit "+T+" "+S+" 1",
 			ack(sg(A[5]), S, 1, 1, c06PoolAckRelayer(1)),
 		),
+		// several chains in NON-sorted order with different addresses: Chains[i] / Addresses[i] stay paired
+		// (an implementation that sorts the chain list but not the address list pays the bsc address here)
+		"multichain-unsorted-registration": append(append([]string{}, head...),
+			reg(A[0].lower, []string{c06S, "bsc"}, []string{"addr-on-teleport-11", "addr-on-bsc"}),
+			recv(sg(A[0]), S, 1, 1),
+			"q "+S+" "+hxs(A[0].lower)+" "+hxs("ADDR-ON-TELEPORT-11"),
+			"q "+hxs("bsc")+" "+hxs(A[0].lower)+" "+hxs("addr-on-bsc"),
+			reg(A[4].lower, []string{"tss-a", "nocl", c06S}, []string{"0xAbCdEf0000000000000000000000000000000001", "n", "relayer-X"}),
+			recv(sg(A[4]), S, 2, 1),
+			"mkcommit "+T+" "+S+" 4",
+			ack(sg(A[5]), S, 4, 1, c06PoolAckRelayer(4)),
+		),
 		// the contract level: call data inside a relayed packet and through `execute`
 		"evm-nested-paths": {
 			"evmreset",
